@@ -158,6 +158,37 @@ func (c14) Gen(tier string, seed int64, emit func([]Ev)) {
 			}
 			emit(append(h, fe))
 		}
+		// the section's last bytes alone in the last packet (also when the CRC_32 ends in 0xFF and looks like stuffing)
+		if len(pids) > 0 {
+			pm := pmt
+			for try := 0; try < 3000; try++ {
+				pm.Program = 1 + (pmt.Program+try)%65535
+				sc := pmtSection(pm)
+				if sc[len(sc)-1] == 0xff || (si%2 == 1 && try > 40) {
+					break
+				}
+			}
+			sc := pmtSection(pm)
+			pl := c06Payload(0, nil, sc, 0)
+			for _, tail := range []int{1, 2, 4} {
+				if len(pl)-tail < 1 || len(pl)-tail > 184*6 {
+					continue
+				}
+				var frags []int
+				for rest := len(pl) - tail; rest > 0; {
+					k := rest
+					if k > 184 {
+						k = 184
+					}
+					frags = append(frags, k)
+					rest -= k
+				}
+				frags = append(frags, tail)
+				pk := packetise(r, pl, frags, pmtPid, tail%2 == 0)
+				emit([]Ev{{"op": "filter", "abs": absPMTEv(pm), "ptr": 0, "packets": pktsEv(pk), "pids": append([]int(nil), pids...)}})
+				emit([]Ev{{"op": "filter", "abs": absPMTEv(pm), "ptr": 0, "packets": pktsEv(pk), "pids": []int{pids[0], 0}}})
+			}
+		}
 		// RemoveElementaryStreams / Pids / PIDExists on the decoded PMT
 		for k := 0; k < 4; k++ {
 			var rm []int
